@@ -11,8 +11,12 @@ package pilosa
 // previous x limit x column, MinRow/MaxRow over filters, GroupBy over child lists x limit x offset x
 // filter x child limit/column, and paging loops (limit+previous, limit+offset) run to exhaustion
 // and compared, concatenated, with the unpaged answer. A second family: every subset of timestamped
-// bits of a time field x from/to x limit x previous x column.
+// bits of a time field x from/to x limit x previous x column. A third: a bool field.
 // Oracle: sorted distinct rows with at least one bit; cross product with exact intersection counts.
+// Two defects of the code under test made calls never return (MaxRow with filter, GroupBy over three
+// fields); such calls run under guards whose verdict is state/work based, never time based
+// (c16Guarded, c16GuardedWork), the runaway goroutine is parked on fragment locks and the node is
+// abandoned; once the minimal case confirms a defect, calls predicted to hit it are not executed.
 
 import (
 	"context"
@@ -594,6 +598,7 @@ func c16MaxRowDefect(m *c16Model, f string, fcols map[uint64]struct{}) (uint64, 
 
 const (
 	c16KMaxRowHang  = "MaxRow with a filter that no row of a fragment starting at row 0 intersects never returns: fragment.maxRow counts a uint64 down past 0 (i >= minRowID is always true) and caches every row on the way"
+	c16KBool        = "Rows/GroupBy/MinRow/MaxRow on a bool field fail with 'missing bool argument' (executor.translateCall demands the optional row argument)"
 	c16KGBLoop      = "GroupBy over three or more Rows never returns when the last row of an outer field intersects no row of the next field: groupByIterator.nextAtIdx keeps looping after the outer iterator is exhausted (gbi.done is not checked after the recursive call)"
 	c16KMaxRow      = "MaxRow answers from fragment.maxRowID (raised only by Set, never lowered by Clear/ClearRow, not raised by Import)"
 	c16KMinRowFilt  = "MinRow with filter scans only up to fragment.maxRowID (raised only by Set): rows written by Import are not seen"
@@ -1598,7 +1603,11 @@ func c16Part3(c *vx.Check) {
 				if _, isErr := v.(error); isErr {
 					got = fmt.Sprint(v)
 				}
-				return got, want, "Rows on a bool field wrong args=" + a.shape()
+				key := "Rows on a bool field wrong args=" + a.shape()
+				if strings.Contains(got, "missing bool argument") {
+					key = c16KBool
+				}
+				return got, want, key
 			}})
 		}
 		rowsCall("Rows(bf)", c16RowsArgs{f: "bf"})
@@ -1620,7 +1629,11 @@ func c16Part3(c *vx.Check) {
 				if _, isErr := v.(error); isErr {
 					got = fmt.Sprint(v)
 				}
-				return got, want, "GroupBy over a bool field wrong " + g.shape()
+				key := "GroupBy over a bool field wrong " + g.shape()
+				if strings.Contains(got, "missing bool argument") {
+					key = c16KBool
+				}
+				return got, want, key
 			}})
 		}
 		for _, fn := range []string{"MinRow", "MaxRow"} {
@@ -1636,7 +1649,11 @@ func c16Part3(c *vx.Check) {
 			calls = append(calls, c16Call{pql: fn + "(field=bf)", judge: func(v interface{}) (string, string, string) {
 				p, ok := v.(Pair)
 				if !ok {
-					return fmt.Sprintf("%T:%v", v, v), want, fn + " on a bool field wrong"
+					got := fmt.Sprintf("%T:%v", v, v)
+					if strings.Contains(got, "missing bool argument") {
+						return got, want, c16KBool
+					}
+					return got, want, fn + " on a bool field wrong"
 				}
 				got := "none"
 				if p.Count > 0 {
